@@ -8,5 +8,5 @@ mkdir -p gen evidence replays .cache
 command -v verus >/dev/null || { echo "verus not on PATH"; exit 1; }
 python3 -c "import sys; sys.path.insert(0,'tools'); import assemble, verus_run, check" 
 python3 -c "import sys; sys.path.insert(0,'tools'); import kani_run; kani_run.ensure_deps_cache()"
-python3 -c "import sys; sys.path.insert(0,'tools'); import native_run; native_run.ensure_deps_cache()"
+python3 -c "import sys; sys.path.insert(0,'tools'); import native_run; native_run.ensure_deps_cache(); native_run.ensure_deps_cache(True)"
 echo setup ok
